@@ -68,6 +68,8 @@ macro_rules! kani_twin {
 }
 
 pub mod util;
+#[cfg(not(kani))]
+pub mod alloc_count;
 pub mod stride;
 pub mod slice;
 pub mod regions;
@@ -82,6 +84,7 @@ pub fn registry() -> Vec<H> {
     v.extend(regions::harnesses());
     v.extend(life::harnesses());
     v.extend(life::harnesses_long());
+    v.extend(life::harnesses_alloc());
     v.extend(more::harnesses());
     v.extend(more::harnesses_long());
     v.extend(codecs::harnesses());
